@@ -460,6 +460,8 @@ impl BufferedDatabaseWriter {
                 match result {
                     Ok(_) => {
                         for msg in buffer {
+                            #[cfg(feature = "verif")]
+                            crate::verif::fault_abort_only("before_ack");
                             match msg {
                                 WriteMessage::Deletion(q, r) => {
                                     let _ = r.send(Ok(q));
@@ -607,8 +609,12 @@ impl BufferedDatabaseWriter {
         let mut daily_log = DailyMutations::default();
         let mut optimize = false; //flag to run the optimize task outside a transaction
 
+        #[cfg(feature = "verif")]
+        crate::verif::fault("batch_begin")?;
         conn.execute("BEGIN TRANSACTION", [])?;
         for query in buffer {
+            #[cfg(feature = "verif")]
+            crate::verif::fault_abort_only("before_request");
             match query {
                 WriteMessage::Deletion(query, _) => {
                     if let Err(e) = query.delete(conn) {
@@ -703,9 +709,15 @@ impl BufferedDatabaseWriter {
                 WriteMessage::Optimize => optimize = true,
             }
         }
+        #[cfg(feature = "verif")]
+        crate::verif::fault_abort_only("before_marks");
         //at the end of the batch, update the daily log with all room dates that needs to be recomputed
         daily_log.write(conn)?;
+        #[cfg(feature = "verif")]
+        crate::verif::fault_abort_only("before_commit");
         conn.execute("COMMIT", [])?;
+        #[cfg(feature = "verif")]
+        crate::verif::fault_abort_only("after_commit");
 
         // run the PRAGMA optimize; outside the transaction
         if optimize {
